@@ -205,6 +205,7 @@ type c15Verdict struct {
 	board                   *c15Board
 	nBoards, maxDepth       int
 	unjudgedBoards          int
+	dupGlob                 bool // the derived program of the differing board repeats a glob declaration verbatim
 	feat                    map[string]int
 	text                    string
 }
@@ -323,6 +324,16 @@ func c15Judge(prog []*gen.LStmt) (v c15Verdict) {
 		cB, cD := c15Content(gB), c15Content(gD)
 		if cB != cD {
 			v.clause, v.board = "C15.board-differs", b
+			seen := map[string]bool{}
+			for _, st := range c15Derived(b) {
+				if st.Tag == "glob" {
+					t := gen.LRender([]*gen.LStmt{st})
+					if seen[t] {
+						v.dupGlob = true
+					}
+					seen[t] = true
+				}
+			}
 			v.detail = fmt.Sprintf("board %s differs from its derived single-board program\nprogram:\n%s\nderived(%s):\n%s\nboard vs derived: %s", b.path, v.text, b.path, d, proj.Diff(cB, cD))
 			return
 		}
@@ -346,6 +357,11 @@ func c15Class(v c15Verdict) string {
 	steps := f["block_steps"]+f["nested_steps_in_layers"]+f["nested_steps_in_scenarios"]+f["nested_steps_in_steps"] > 0
 	belowLayer := f["nested_steps_in_layers"]+f["nested_scenarios_in_layers"] > 0
 	switch {
+	case v.dupGlob:
+		// d2 identifies glob declarations of one block by key equality (C12 FL09): the flat
+		// derived program repeats a declaration that the board receives once by inheritance and
+		// once literally
+		return "identical-glob-declaration-repeated-in-derived-program"
 	case f["object_nulled"] > 0 && glob:
 		return "glob-and-null-in-inherited-content"
 	case f["glob_double"] > 0 && (f["substitution"] > 0 || f["class_applied"] > 0):
